@@ -138,12 +138,14 @@ def trace_obligations(ctx):
         # TOFFOLI.congruent(use_toffolis=False) = TOFFOLI with the sign of |101> reversed (exact)
         for pl, n, qs in [("asc", 3, [0, 1, 2]), ("desc", 3, [2, 1, 0]), ("rot", 3, [1, 2, 0]), ("gap", 4, [3, 0, 2])]:
             try:
-                c0, c1, t = qs
-                lst = G.TOFFOLI(c0, c1, t).congruent(use_toffolis=False)
-                rhs = [G.X(c1), G.CCZ(c0, c1, t), G.X(c1), G.TOFFOLI(c0, c1, t)]
+                t = qs[2]
+                c0, c1 = G.TOFFOLI(*qs).control_qubits  # sorted by qibo
+                lst = G.TOFFOLI(*qs).congruent(use_toffolis=False)
+                # TOFFOLI after reversing the sign of |c0 c1 t> = |1 0 0>
+                rhs = [G.X(c1), G.X(t), G.CCZ(c0, c1, t), G.X(c1), G.X(t), G.TOFFOLI(c0, c1, t)]
                 tab.ob_product(f"C08_congruent_{pl}", 0, n, [qgates.sgate_of(x) for x in lst],
                                [qgates.sgate_of(x) for x in rhs], phase=False, gate="TOFFOLI.congruent")
-                one = G.TOFFOLI(c0, c1, t).congruent(use_toffolis=True)
+                one = G.TOFFOLI(*qs).congruent(use_toffolis=True)
                 tab.ob_product(f"C08_congruent_true_{pl}", 0, n, [qgates.sgate_of(x) for x in one],
                                [qgates.sgate_of(G.TOFFOLI(c0, c1, t))], phase=False, gate="TOFFOLI.congruent")
             except (Untranslatable, BranchOnSymbol) as e:
@@ -243,6 +245,7 @@ def class_search(ctx, raised):
                     continue
                 ctx.case(("dec", name, n, tuple(qs), tuple(round(v, 4) for v in vals)))
                 R = qgates.gate_full_matrix(g, n)
+                q_before = list(g.qubits)
                 calls = [("decompose", lambda g=g: g.decompose(), "g.decompose()")]
                 if intab:
                     calls.append(("table", lambda g=g: std(g), "standard_decompositions(g)"))
@@ -260,7 +263,7 @@ def class_search(ctx, raised):
                                  observed=f"{type(e).__name__}: {e}", broken=[f"C08_dec_{name}_asc"])
                         continue
                     ok = qgates.phase_equal(Pm, R)
-                    same = np.allclose(qgates.gate_full_matrix(g, n), R, atol=1e-12) and list(g.qubits) == list(qs)
+                    same = np.allclose(qgates.gate_full_matrix(g, n), R, atol=1e-12) and list(g.qubits) == q_before
                     if not (ok and same):
                         ctx.fail(key, f"{src} of {gate_expr(name, qs, vals)} on {n} qubits is not the gate's operator up to a global phase"
                                  + ("" if same else " (the gate object was modified by the call)"), code,
@@ -309,7 +312,12 @@ def controlled_search(ctx):
             vals = [ctx.rng.choice(GRID[:8]) if ctx.rng.random() < 0.4 else round(ctx.rng.uniform(-3, 3), 3) for _ in range(info.np)]
             code = PRE + f"g = {gate_expr(name, qs, vals, cs)}\nR = full(g, {n})\nassert same_up_to_phase(prod(g.decompose(), {n}), R)\n"
             try:
-                g = info.make(qs, vals).controlled_by(*cs)
+                g = info.make(qs, vals)
+            except Exception:
+                ctx.stat("ctor_reject")
+                continue
+            try:
+                g = g.controlled_by(*cs)
                 R = qgates.gate_full_matrix(g, n)
                 dec = g.decompose() if name != "X" else g.decompose(*[q for q in range(n) if q not in lab])
                 Pm = product(dec, n)
@@ -452,7 +460,8 @@ def mcx_search(ctx):
                 ctx.fail(f"raises:{key}", f"X.decompose raises {type(e).__name__}: {e} for m={m}, free={fs}", code,
                          observed=f"{type(e).__name__}: {e}", broken=["C08_search_mcx"])
                 continue
-            lines.append(f"XDEC {int(ut)} {m} " + " ".join(map(str, cs)) + f" {t} {len(fs)} " + " ".join(map(str, fs)))
+            scs = sorted(cs)  # the gate object's control_qubits
+            lines.append(f"XDEC {int(ut)} {m} " + " ".join(map(str, scs)) + f" {t} {len(fs)} " + " ".join(map(str, fs)))
             meta.append(("XDEC", m, cs, t, fs, ut, real, code, key))
             ctx.case(("mcx", m, len(fs), tuple(cs), t, ut))
             ctx.stat(f"mcx_m{m}")
@@ -506,7 +515,7 @@ def mcx_search(ctx):
             else:
                 ctx.stat("mcx_list_not_classical")
     # ValueError class: free overlapping the gate's qubits, duplicated free qubits
-    for (cs, t, fs) in [([1, 2, 3], 0, [3]), ([1, 2, 3], 0, [0, 4]), ([1, 2], 0, [2]), ([1, 2, 3, 4], 0, [5, 5]), ([1, 2, 3, 4, 5], 0, [6, 7, 6])]:
+    for (cs, t, fs) in [([1, 2, 3], 0, [3]), ([1, 2, 3], 0, [0, 4]), ([1, 2], 0, [2]), ([4, 2, 6], 1, [0, 6]), ([], 3, [3]), ([], 3, [1])]:
         for ut in (True, False):
             try:
                 dec = gates.X(t).controlled_by(*cs).decompose(*fs, use_toffolis=ut)
@@ -517,7 +526,7 @@ def mcx_search(ctx):
                 real = "NotImplementedError"
             except Exception as e:
                 real = type(e).__name__
-            lines.append(f"XDEC {int(ut)} {len(cs)} " + " ".join(map(str, cs)) + f" {t} {len(fs)} " + " ".join(map(str, fs)))
+            lines.append(f"XDEC {int(ut)} {len(cs)} " + " ".join(map(str, sorted(cs))) + f" {t} {len(fs)} " + " ".join(map(str, fs)))
             meta.append(("XDEC", len(cs), cs, t, fs, ut, real, "", "mcx:valueerror"))
     res = run_driver(lines, driver=DRIVER)
     first = None
@@ -546,23 +555,24 @@ def congruent_search(ctx):
     bad = 0
     for n in (3, 4):
         for qs in itertools.permutations(range(n), 3):
-            c0, c1, t = qs
+            t = qs[2]
+            c0, c1 = sorted(qs[:2])
             ctx.case(("congruent", n, qs))
-            T = qgates.gate_full_matrix(gates.TOFFOLI(c0, c1, t), n)
+            T = qgates.gate_full_matrix(gates.TOFFOLI(*qs), n)
             D = np.eye(2**n)
             for i in range(2**n):
                 b = [(i >> (n - 1 - q)) & 1 for q in range(n)]
-                if b[c0] == 1 and b[c1] == 0 and b[t] == 1:
+                if b[c0] == 1 and b[c1] == 0 and b[t] == 0:
                     D[i, i] = -1
             for ut, E in ((True, T), (False, T @ D)):
-                lst = gates.TOFFOLI(c0, c1, t).congruent(use_toffolis=ut)
+                lst = gates.TOFFOLI(*qs).congruent(use_toffolis=ut)
                 Pm = product(lst, n)
                 if not np.allclose(Pm, E, atol=1e-9):
                     bad += 1
-                    ctx.fail("congruent", f"TOFFOLI{qs}.congruent(use_toffolis={ut}) is not TOFFOLI" + ("" if ut else " with the sign of |101> reversed"),
-                             PRE + f"c0, c1, t = {qs}; n = {n}\nT = full(gates.TOFFOLI(c0, c1, t), n); D = np.eye(2**n)\n"
-                             "for i in range(2**n):\n    b = [(i >> (n-1-q)) & 1 for q in range(n)]\n    if b[c0] == 1 and b[c1] == 0 and b[t] == 1: D[i, i] = -1\n"
-                             f"E = T if {ut} else T @ D\nassert np.allclose(prod(gates.TOFFOLI(c0, c1, t).congruent(use_toffolis={ut}), n), E, atol=1e-9)\n",
+                    ctx.fail("congruent", f"TOFFOLI{qs}.congruent(use_toffolis={ut}) is not TOFFOLI" + ("" if ut else " with the sign of |c0 c1 t> = |100> reversed"),
+                             PRE + f"qs = {qs}; t = qs[2]; c0, c1 = sorted(qs[:2]); n = {n}\nT = full(gates.TOFFOLI(*qs), n); D = np.eye(2**n)\n"
+                             "for i in range(2**n):\n    b = [(i >> (n-1-q)) & 1 for q in range(n)]\n    if b[c0] == 1 and b[c1] == 0 and b[t] == 0: D[i, i] = -1\n"
+                             f"E = T if {ut} else T @ D\nassert np.allclose(prod(gates.TOFFOLI(*qs).congruent(use_toffolis={ut}), n), E, atol=1e-9)\n",
                              broken=["C08_congruent_asc", "C08_congruent_desc", "C08_congruent_rot", "C08_congruent_gap", "C08_search_congruent"])
     ctx.ob("C08_search_congruent", bad == 0, "search", "")
 
@@ -668,7 +678,7 @@ def circuit_search(ctx):
             ok4 = cat == descr_list(d.queue)
         except Exception as e:
             bad += 1
-            ctx.fail(f"circuit_decompose:raises:{type(e).__name__}", f"Circuit.decompose raises {type(e).__name__}: {e}", code,
+            ctx.fail(f"circuit_decompose:raises:{type(e).__name__}", f"Circuit.decompose(*{free}) raises {type(e).__name__}: {e}", code,
                      observed=f"{type(e).__name__}: {e}", broken=["C08_search_circuit"])
             continue
         ctx.case(("circuit", n, tuple(free), tuple((r[0], tuple(r[1]), tuple(r[3])) for r in recipe)))
@@ -678,36 +688,36 @@ def circuit_search(ctx):
                     "modified the original circuit" if not ok2 else "differs on the second call" if not ok3 else
                     "is not the concatenation of the gates' decompositions")
             ctx.fail("circuit_decompose", f"Circuit.decompose(*{free}) {what}", code, broken=["C08_search_circuit"])
-        # model correspondence: queue of MCX gates / opaque gates
-        if all(nm == "X" or True for nm, *_ in recipe):
-            toks, exp = [], []
-            for gi, (nm, qs, vals, cs) in enumerate(recipe):
-                if nm == "X":
-                    toks.append(f"1 {len(cs)} " + " ".join(map(str, cs)) + f" {qs[0]}")
-                else:
-                    toks.append(f"0 {gi}")
-            # expected from the real circuit: MCX parts as tokens, other gates as opaque ids
-            try:
-                for gi, g in enumerate(c.queue):
-                    if recipe[gi][0] == "X":
-                        exp += [gate_tok(x) for x in g.decompose(*free)]
-                    else:
-                        exp += [f"g{gi}"] * len(g.decompose(*free))
-                real_line = " | ".join(exp)
-            except Exception as e:
-                real_line = type(e).__name__
-            if all(len(g.decompose(*free)) == 1 for gi, g in enumerate(c.queue) if recipe[gi][0] != "X" and recipe[gi][0] not in dinfos) :
-                # opaque ids stand for gates whose decomposition has one element in the model
-                single = [gi for gi, g in enumerate(c.queue) if recipe[gi][0] != "X" and len(g.decompose(*free)) != 1]
-                if not single:
-                    lines.append(f"CDEC 1 {len(free)} " + " ".join(map(str, free)) + f" {len(recipe)} " + " ".join(toks))
-                    meta.append((real_line, build, free))
-    if lines:
-        res = run_driver(lines, driver=DRIVER)
-        mism = [(m, a) for m, a in zip(meta, res) if m[0] != a]
-        ctx.ob("C08_corr_circuit", not mism, "correspondence",
-               "" if not mism else f"{mism[0][1]}free={mism[0][2]}: model `{mism[0][0][:150]}` vs `{mism[1][:150] if len(mism) > 1 else mism[0][1][:150]}`")
-        ctx.stat("circuit_driver_lines", len(lines))
+    # correspondence with the Lean model of Circuit.decompose: queues of multi-controlled X
+    # gates and one-element ("opaque") gates, tagged by their angle
+    for it in range(30 if ctx.thorough else 12):
+        n = rng.randint(5, 9)
+        free = rng.sample(range(n), rng.randint(1, 3))
+        work = [q for q in range(n) if q not in free]
+        c = Circuit(n)
+        toks = []
+        for gi in range(rng.randint(2, 5)):
+            if rng.random() < 0.7:
+                m = rng.randint(0, min(len(work) - 1, 6))
+                lab = rng.sample(work, m + 1)
+                c.add(gates.X(lab[m]).controlled_by(*lab[:m]))
+                toks.append(f"1 {m} " + " ".join(map(str, sorted(lab[:m]))) + f" {lab[m]}")
+            else:
+                c.add(gates.RX(rng.choice(work), float(gi + 1)))
+                toks.append(f"0 {gi + 1}")
+        try:
+            d = c.decompose(*free)
+            real_line = " | ".join((f"g{round(x.parameters[0])}" if x.name == "rx" else gate_tok(x)) for x in d.queue)
+        except Exception as e:
+            real_line = type(e).__name__
+        lines.append(f"CDEC 1 {len(free)} " + " ".join(map(str, free)) + f" {len(toks)} " + " ".join(toks))
+        meta.append((real_line, [(g.name, g.qubits) for g in c.queue], free))
+        ctx.case(("cdec", n, tuple(free), tuple(toks)))
+    res = run_driver(lines, driver=DRIVER)
+    mism = [(m, a) for m, a in zip(meta, res) if m[0] != a]
+    ctx.ob("C08_corr_circuit", not mism, "correspondence",
+           "" if not mism else f"queue {mism[0][0][1]} free={mism[0][0][2]}: real `{mism[0][0][0][:150]}` model `{mism[0][1][:150]}`")
+    ctx.stat("circuit_driver_lines", len(lines))
     ctx.ob("C08_search_circuit", bad == 0, "search", f"{bad} failing circuits" if bad else "")
 
 
